@@ -70,6 +70,24 @@ func modRender(tc *modCase, oneLine bool) *scRender {
 			idx++
 		}
 		tv := func(n string) occ { return occ{Slot: "x", Name: n, Role: "use"} }
+		// a file that defines a member through its require'd variable: every member reached through that variable in the
+		// file is affected by the known finding (the locally recorded members shadow the module's)
+		modDef := map[string]bool{}
+		for _, it := range items {
+			if it.K == "mdef" && it.HK == "mod" {
+				modDef[it.X] = true
+			}
+		}
+		// as-built alternatives of a member reached through variable x (known findings)
+		altOf := func(it modItem, def bool) map[string]int {
+			if it.HK == "mod" && (def || modDef[it.X]) {
+				return map[string]int{"Dev_MemberDefinedThroughRequireUnreferenced": 1}
+			}
+			if it.X == "L" {
+				return map[string]int{"Dev_MemberThroughAliasUnreferenced": 1}
+			}
+			return nil
+		}
 		for _, it := range items {
 			switch it.K {
 			case "deftab":
@@ -102,15 +120,14 @@ func modRender(tc *modCase, oneLine bool) *scRender {
 				case "field":
 					emit(tv(it.X), ".", mo, " = 1")
 				case "deep":
-					emit("function ", tv(it.X), ".", occ{Slot: "sub", Name: "sub", Role: "mdef", Kind: "sub", B: it.H}, ".", mo, "(p) return p end")
+					emit("function ", tv(it.X), ".", occ{Slot: "sub", Name: "sub", Role: "mdef", Kind: "sub", B: it.H, Alt: altOf(it, true)}, ".", mo, "(p) return p end")
 				case "deepfield":
-					emit(tv(it.X), ".", occ{Slot: "sub", Name: "sub", Role: "mdef", Kind: "sub", B: it.H}, ".", mo, " = 1")
+					emit(tv(it.X), ".", occ{Slot: "sub", Name: "sub", Role: "mdef", Kind: "sub", B: it.H, Alt: altOf(it, true)}, ".", mo, " = 1")
 				}
 			case "muse":
 				mo := occ{Slot: "mn", Name: it.M, Role: "muse", Kind: it.St, B: it.H}
-				if it.X == "L" {
-					mo.Alt = map[string]int{"Dev_MemberThroughAliasUnreferenced": 1}
-				}
+				// (self / selfnest: the enclosing method zz is itself defined through the variable)
+				mo.Alt = altOf(it, it.St == "self" || it.St == "selfnest")
 				switch it.St {
 				case "read":
 					emit("print(", tv(it.X), ".", mo, ")")
@@ -119,7 +136,7 @@ func modRender(tc *modCase, oneLine bool) *scRender {
 				case "mcall":
 					emit(tv(it.X), ":", mo, "(1)")
 				case "deepread":
-					emit("print(", tv(it.X), ".", occ{Slot: "sub", Name: "sub", Role: "muse", Kind: "sub", B: it.H}, ".", mo, ")")
+					emit("print(", tv(it.X), ".", occ{Slot: "sub", Name: "sub", Role: "muse", Kind: "sub", B: it.H, Alt: altOf(it, false)}, ".", mo, ")")
 				case "self":
 					emit("function ", tv(it.X), ":zz(p) return self.", mo, " end")
 				case "selfnest":
